@@ -10,7 +10,7 @@ SPEC = {
             "Corpus: every test_data/*.block pallas decodes (conway8.block is its negative fixture; genesis.block is the epoch-boundary block, plus a small synthetic one) and every 300th (thorough: 5th) block of the three immutable-db chunks. Generated: blocks re-assembled "
             "at the CBOR level from corpus headers / (body, witness set) pairs / auxiliary data of the same decoder family, tag 2..5 / 6 / 7 (tag as `07` or "
             "`18 07`, wrapper head `82` or `98 02`, inner array definite or indefinite), 0..6 transactions, aux wire map with 0..k+1 entries on keys 0..k+1 (sparse, repeated, out of range), invalid list absent or 0..3 "
-            "indices (repeated, out of range), definite / indefinite arrays and maps, 1/10 with fewer and 1/10 with more witness sets than bodies; plus "
+            "indices (repeated, out of range), definite / indefinite arrays and maps, 1/10 with fewer and 1/10 with more witness sets than bodies; single-site encoding mutants (def<->indef incl. empty containers, head widths incl. 8-byte, chunked strings; sites spread evenly and always incl. the last) of small corpus blocks that pallas still decodes; plus "
             "two probe-only cases (15 x 15 head combinations, random short prefixes). distinct = sha1 of op text; non-trivial = block with a sparse aux "
             "map that binds an in-range index, or an invalid list naming an in-range index",
     "trusted_base": ["Model/Traverse.lean is a hand transcription of probe::block_era, clone_tx_fn!, clone_*_txs, tx_count (BTreeMap decode = insert "
